@@ -73,13 +73,16 @@ def cargo_check_failing_programs(crate_dir, target_dir, progs, tests=False):
         msg = m['message']
         if msg.get('level') != 'error':
             continue
-        files = {s['file_name'] for s in msg.get('spans', [])}
+        # the program an error belongs to is the file of its PRIMARY span(s) (secondary spans are rustc's hints, e.g. every
+        # other item of the same name in the crate); without primary spans fall back to all of them
+        spans = [s for s in msg.get('spans', []) if s.get('is_primary')] or msg.get('spans', [])
+        files = {s['file_name'] for s in spans}
         # follow macro expansion back-traces
         def walk(sp):
             while sp:
                 files.add(sp['file_name'])
                 sp = (sp.get('expansion') or {}).get('span')
-        for s in msg.get('spans', []):
+        for s in spans:
             walk(s)
         hit = False
         for f in files:
